@@ -100,6 +100,11 @@ CHECKS = {
   text="Random value graphs with shared sub-values are built through the trait on BasicGarnishData, values pushed on the three stacks, symbol names registered, a random retention point chosen, clone_data applied to random values and optimize applied 1..3 times with random extra roots (some already on a stack); every register, input value, frame return address, symbol name, retained value and mapped root is read back and must equal what it was and what the shadow model says; the heap block invariant is checked after every optimize. Generated programs are run undisturbed and with optimize injected before step k for every k (sampled beyond 48 steps), before every step and before every third step; value and step count must not change. Held on the graphs, histories and injection points observed.",
   note="trusts: the protocol 'retain_all_current_data() after build' (constants named by instructions lie in the retained prefix); read-back through the public getters as the notion of 'structurally identical'",
   design="DESIGN.md §5 C19"),
+ "C20": dict(
+  technique="runtime monitor: recorded build/run histories on one shared monitored data object; per-build stream compared (rebased) with the same program built alone, earlier programs' pieces re-read after every later build and run (offline snapshot comparison), results compared with the alone runs",
+  text="Pairs and triples of hand-picked programs and random sequences of 2..4 generated programs are built into one data object in every order (4 random orders for 4 programs), with runs of already-built programs interleaved between builds in four patterns, on both stores. Each build's instruction range, jump-entry range and reported entry are recorded; its rebased stream must equal that of the program built alone (so every jump, expression value and data operand names its own pieces or an equal constant); every earlier program's instructions, jump entries and constants must read back unchanged after each later build and run; each program run from its reported entry must stay inside its own instructions, restore the stacks and give the value and step count of its run alone. Held on the sequences, orders and interleavings observed.",
+  note="trusts: the alone-build of the same source as the reference for what a program's stream should be (C05/C06 check that stream by itself)",
+  design="DESIGN.md §5 C20"),
 }
 
 NOT_YET = "check not built yet in this round (work in progress; will be claimed once its monitor exists)"
